@@ -27,4 +27,9 @@ structure FieldSpec where
 inductive Sec | glob | inp | out
   deriving DecidableEq, Repr
 
+/-- what `__init__` gives a field nothing was said about: `None`, `b""`, `{}`, or something else
+    (an empty `Witness`, an empty list, the required `tx_version`). -/
+inductive Dflt | none | emptyBytes | emptyDict | other
+  deriving DecidableEq, Repr
+
 end Btc.C11
